@@ -83,20 +83,6 @@ theorem C11_rejected_changes_nothing (s : State) (h : Handle) (op : Op) (oi : Na
 
 /-! ### the invariant along every history -/
 
-/-- a step of a sequential history on one family: a public call through any handle, a constructor
-call (with or without data), an outside writer replacing a resource's content -/
-inductive SStep where
-  | call (h : Handle) (op : Op)
-  | openObj (isDict : Bool) (res : Nat) (data : Option J)
-  | ext (res : Nat) (d : J)
-
-def sstep (s : State) : SStep → State
-  | .call h op => (call s h op).1
-  | .openObj d r data => (openObj s 0 d r data).1
-  | .ext r d => extWrite s r d
-
-def srun (s : State) (history : List SStep) : State := history.foldl sstep s
-
 theorem famReq_of_table {f : FamInfo} (hf : f ∈ Generated.families) :
     FamReq (famKeyReq f) (famLeafReq f) f.toFam := by
   have h := C11_table f hf
